@@ -307,7 +307,7 @@ Definition gkind_eqb (a b : gkind) : bool :=
   | _, _ => false
   end.
 (** [count_limit_successor]: [limit.checked_add(1)] failing is a [BadArgument] compile error
-    (it was [buggy::assume], a [Bug], before /repo 7d01b13); which one is regenerated. *)
+    (it was [buggy::assume], a [Bug], before /repo 89546a0); which one is regenerated. *)
 Definition limit_overflow_err : err := if limit_overflow_is_bad_argument then EBadArgument else EBug.
 Definition compile_g (limit : Z) (g : ginstr) : res instr :=
   match g with
